@@ -16,7 +16,7 @@ def main():
     p = VERIF / "DESIGN.md"
     s = p.read_text()
     kf = json.loads((VERIF / "known_findings.json").read_text())
-    miss = [f for f in kf["fixed"] if f["commit"] not in s]
+    miss = [f for f in kf["fixed"] if ("| %s |" % f["commit"]) not in s]
     if miss:
         rows = ["| %s | %s | %s |" % (f["property"], f["commit"], f["what"].replace("|", "/")[:300]) for f in miss]
         tab = [m for m in re.finditer(r"^\| C\d\d(?:/C\d\d)? \| [0-9a-f]{7} \|.*$", s, flags=re.M)]
